@@ -22,6 +22,20 @@ type Case struct {
 	Src  string `json:"src"`
 }
 
+var wildPrelude = wild.Prelude
+
+// execFresh runs src in a brand-new worker process.
+func execFresh(src string) outcome {
+	saved, savedRecent := theWorker, recent
+	theWorker = nil
+	o := execInWorker1(src)
+	if theWorker != nil {
+		theWorker.kill()
+	}
+	theWorker, recent = saved, savedRecent
+	return o
+}
+
 var numRe = regexp.MustCompile(`0x[0-9a-f]+|\d{3,}`)
 
 func normMsg(s string) string {
@@ -48,6 +62,7 @@ func siteOf(msg string) string {
 func oracle(c Case, o *h.Obs) *h.Fail {
 	o.Key = c.Src
 	src := c.Src
+	hist := history()
 	out := execInWorker(src)
 	o.Class("kind_" + c.Kind)
 	o.Class("status_" + out.Status)
@@ -66,6 +81,11 @@ func oracle(c Case, o *h.Obs) *h.Fail {
 		o.Excluded = "outside the guarantee: " + out.Status
 		return nil
 	case "panic":
+		if isolated := execFresh(src); isolated.Status != "panic" {
+			// the same source does not panic in a fresh worker process: the failure depends on
+			// what ran earlier in that process (shared state inside anko). Report the history.
+			return h.Failf("C01|panic-depends-on-process-history|"+normMsg(out.Msg)+"|"+siteOf(out.Msg), "a Go panic escaped while running this source, but only after other sources had run in the same process (it does not panic in a fresh process): shared mutable state\nsource:\n%s\npanic: %s\nsources run before it in that process (oldest first):\n%s", src, out.Msg, hist)
+		}
 		return h.Failf("C01|panic|"+normMsg(out.Msg)+"|"+siteOf(out.Msg), "a Go panic escaped from parsing/running this source on the calling goroutine (non-debug mode):\n%s\npanic: %s", src, out.Msg)
 	case "crash":
 		return h.Failf("C01|crash|"+normMsg(out.Msg)+"|"+siteOf(out.Msg), "the host process died while running this source (panic on a goroutine started by the script, or fatal error):\n%s\n%s", src, out.Msg)
